@@ -105,6 +105,9 @@ pub mod value;
 pub mod vm;
 
 mod host_defined;
+#[cfg(kani)]
+#[path = "/verif/kani/engine/root.rs"]
+pub(crate) mod verif_kani;
 mod sys;
 
 mod spanned_source_text;
